@@ -565,6 +565,16 @@ class InterpBase:
             ety = base.ty[1][i.a[0]]
         if base.ty in ("bytes", "bytearray") or base.k in ("slice", "bcat") or ety is None and base.ty is None:
             self.log_read("idx", base, i, None, env, node)
+            if base.k in ("slice", "bcat"):
+                # canonical value: the octet of the root buffer (the read log keeps the original view, whose bounds
+                # X-BUF decides; wherever the index is valid the value is this octet)
+                from .bits import buffer_pos
+                from .linear import linearize
+                p = buffer_pos(base, linearize(i))
+                if p is not None and p[1].is_const() and p[1].c >= 0 and p[0].k == "sym":
+                    if (p[0].a[0], p[1].c) in self.concrete_bytes:
+                        return C(self.concrete_bytes[(p[0].a[0], p[1].c)])
+                    return T("idx", p[0], C(p[1].c), ty="int" if ety is None else ety)
             return T("idx", base, i, ty="int" if ety is None else ety)
         self.log_read("idx", base, i, None, env, node)
         return T("idx", base, i, ty=ety)
